@@ -13,5 +13,6 @@ ShiftsAll   == {2, -3}
 ShiftsSim   == {2, -3, 1, 1000000}
 PokesAll    == {8, -24}
 LevelBound  == TLCGet("level") <= 4
+LevelBoundT == TLCGet("level") <= 5
 LevelBoundG == TLCGet("level") <= 3
 ====
